@@ -1,5 +1,5 @@
 """C17: chemistry reductions keep matrix elements: low rank, active space, RDMs."""
-import itertools
+import os, itertools, tempfile
 from fractions import Fraction
 import numpy as np
 from ..core import *
@@ -116,6 +116,15 @@ def run(ctx):
         add('spinorb_expansion', '(fermi_equiv %s %s)' % (coq_fop_terms(full), coq_fop_terms(doc)), {'call': 'spinorb_from_spatial', 'n_spatial': n, 'one_body': h.tolist()}, key=repr((h.tolist(), eri.tolist())))
         o1, t1 = get_tensors_from_integrals(h, eri)
         add('tensors_from_integrals', '(fermi_equiv %s %s)' % (coq_fop_terms(spec_poly({(): nuc, (1, 0): o1, (1, 1, 0, 0): t1})), coq_fop_terms(doc)), {'call': 'get_tensors_from_integrals', 'n_spatial': n}, key=('t', repr((h.tolist(), eri.tolist()))))
+        # the same through a MolecularData record carrying these integrals: get_integrals / get_molecular_hamiltonian
+        mol = of.MolecularData([('H', (0, 0, 0)), ('H', (0, 0, 0.7414))], 'sto-3g', 1, filename=os.path.join(tempfile.gettempdir(), 'vf_c17_mol_%d' % os.getpid()))
+        mol.nuclear_repulsion = nuc; mol.one_body_integrals = h.copy(); mol.two_body_integrals = eri.copy()
+        try:
+            mh = mol.get_molecular_hamiltonian()
+            add('molecular_hamiltonian', '(fermi_equiv %s %s)' % (coq_fop_terms(spec_poly({(): mh.constant, (1, 0): mh.one_body_tensor, (1, 1, 0, 0): mh.two_body_tensor})), coq_fop_terms(doc)),
+                {'call': 'MolecularData.get_molecular_hamiltonian', 'n_spatial': n, 'one_body': h.tolist(), 'eri': repr(eri.tolist()), 'nuclear_repulsion': nuc}, key=('m', repr((h.tolist(), eri.tolist()))))
+        except Exception as e:
+            ctx.count('molecular_hamiltonian', 1); ctx.violation('C17 MolecularData.get_molecular_hamiltonian raised %s: %s' % (type(e).__name__, e), {'one_body': h.tolist()})
         # every partition into occupied / active / virtual
         for k in range(0, n):
             for occ in itertools.combinations(range(n), k):
@@ -132,6 +141,14 @@ def run(ctx):
                         if not exact_terms_ok(active, lo=30): continue
                         add('active_space', '(freeze_ok %s %s %s %s %s)' % (cnat(2 * n), cNl(frozen), cbl(occv), coq_fop_terms(full), coq_fop_terms(active)),
                             {'call': 'get_active_space_integrals', 'n_spatial': n, 'occupied': list(occ), 'active': list(act), 'one_body': h.tolist()}, key=(repr((h.tolist(), eri.tolist())), occ, act))
+                        try:
+                            mha = mol.get_molecular_hamiltonian(occupied_indices=list(occ), active_indices=list(act))
+                            ctx.count('molecular_hamiltonian_active', 1, nontrivial_key=(repr((h.tolist(), eri.tolist())), occ, act))
+                            if not (abs(mha.constant - (nuc + core)) < 1e-12 and np.array_equal(mha.one_body_tensor, o_a) and np.array_equal(mha.two_body_tensor, 0.5 * t_a)):
+                                ctx.violation('C17 MolecularData.get_molecular_hamiltonian(occupied, active) differs from the spin-orbital expansion of get_active_space_integrals',
+                                              {'n_spatial': n, 'occupied': list(occ), 'active': list(act), 'one_body': h.tolist(), 'eri': repr(eri.tolist())})
+                        except Exception as e:
+                            ctx.violation('C17 MolecularData.get_molecular_hamiltonian(occupied, active) raised %s: %s' % (type(e).__name__, e), {'occupied': list(occ), 'active': list(act)})
                         # and agreement with freeze_orbitals on the fermion operator
                         fo = freeze_orbitals(of.get_fermion_operator(of.InteractionOperator(nuc, one, 0.5 * two)), [2 * j + s for j in occ for s in (0, 1)], [2 * j + s for j in virt for s in (0, 1)] or None, prune=True)
                         if m == len(rest) or True:
